@@ -8,6 +8,7 @@ import DSymVerif.Proofs.DSetSym
 import DSymVerif.Proofs.DSetTravSpec
 import DSymVerif.Proofs.DSetOrient
 import DSymVerif.Proofs.DSetExamples
+import DSymVerif.Proofs.DSetConvert
 
 namespace DSymVerif.C02
 open DSymVerif.DS
@@ -44,6 +45,12 @@ example : (DSymData.ofSimple ex2).rSimple 0 2 0 = .ok none := by decide
 
 /-! ### 2. the `PartialDSym` and `SimpleDSym` overrides are the same functions -/
 
+/-- NB: this is `rfl` because the *model* states `SimpleDSym::r/v/m` (dsyms.rs:412-448, after the
+    D2 fix) by the same text as `PartialDSym::r/v/m` (dsyms.rs:213-249); it documents that fact about
+    the model.  That the two *Rust* overrides are the same function is not proved here: it rests on
+    the differential correspondence (ops `tables` / `probe` compare both Rust overrides with their
+    model counterpart on every explored case, and the Spec clause `representations-agree-*`
+    compares the two Rust answers with each other). -/
 theorem overrides_agree (s : DSymData) :
     s.rSimple = s.rPartial ∧ s.vSimple = s.vPartial ∧ s.mSimple = s.mPartial :=
   ⟨rfl, rfl, rfl⟩
@@ -459,5 +466,70 @@ theorem collectOrbits_numbering_surjective (s : DSetData) (h : ValidSet s) (k : 
   collectOrbits_surj h hk
 
 example : ValidSet ex2 ∧ 0 < (collectOrbits ex2).rs.size := ⟨ex2_valid, by decide⟩
+
+/-! ### 9. conversions (`as_dset`, `as_dsym`, `as_partial_dsym` of derived.rs) -/
+
+/-- The conversions, as the driver models them (`buildSet`, `buildSymUsingVs`, `asPartialDSym`),
+    preserve every query, for all arguments (in range and out of range):
+    * `as_dset` of a symbol / D-set with valid data returns the stored D-set itself, so `op`, the
+      walking `r` and `m` of the copy are those of the source;
+    * `as_partial_dsym` of a symbol with valid tables returns the symbol itself (`op/r/v/m` equal);
+    * `as_dsym` of a complete D-set is a symbol over the same D-set (`op` equal for all arguments)
+      with valid tables, all adjacent `v = 1`, whose table-based `r` is the source's walking `r` for
+      equal and adjacent index pairs, and for every index pair when far operations commute.
+    `1 ≤ size`, `1 ≤ dim` are the assertions of `PartialDSet::new`. -/
+theorem conversions_preserve_queries (y : DSymData) (hy : ValidTables y) (hsz : 1 ≤ y.size) (hdim : 1 ≤ y.dim) :
+    (buildSet y.size y.dim y.op = .ok y.dset ∧
+     buildSet y.dset.size y.dset.dim y.dset.opPartial = .ok y.dset ∧
+     buildSet y.dset.size y.dset.dim y.dset.opSimple = .ok y.dset) ∧
+    asPartialDSym y = .ok y ∧
+    ∃ z, buildSymUsingVs y.dset (fun _ _ => some 1) = .ok z ∧ z.dset = y.dset ∧ ValidTables z ∧
+      (∀ i d, z.op i d = y.dset.opSimple i d) ∧
+      (∀ i d, i < y.dim → 1 ≤ d → d ≤ y.size → z.vPartial i (i + 1) d = .ok (some 1)) ∧
+      (∀ i j d, (j = i ∨ j = i + 1 ∨ i = j + 1 ∨ FarCommute y.dset) →
+        z.rPartial i j d = y.dset.viewSimple.r i j d) := by
+  have h := hy.set
+  have ha := asDset_self y.dset h hsz hdim
+  refine ⟨⟨ha.1, ha.2, ha.1⟩, asPartialDSym_self y hy hsz hdim, ?_⟩
+  obtain ⟨z, hz, hzd, hT, hv⟩ := asDsym_spec y.dset h
+  refine ⟨z, hz, hzd, hT, fun i d => by unfold DSymData.op; rw [hzd], hv, ?_⟩
+  intro i j d hcase
+  by_cases hin : i ≤ y.dim ∧ j ≤ y.dim ∧ 1 ≤ d ∧ d ≤ y.size
+  · obtain ⟨hi, hj, h1, h2⟩ := hin
+    have hzs : z.size = y.size := by unfold DSymData.size; rw [hzd]
+    have hzm : z.dim = y.dim := by unfold DSymData.dim; rw [hzd]
+    have hview : z.view = y.dset.viewSimple := by rw [z.view_eq, hzd]
+    rw [← hview]
+    by_cases hfar : FarCommute y.dset
+    · have hS : ValidSym z := ⟨hT, by rw [hzd]; exact hfar⟩
+      exact hS.rPartial_eq_generic (by rw [hzm]; exact hi) (by rw [hzm]; exact hj) h1 (by rw [hzs]; exact h2)
+    · rcases hcase with rfl | rfl | rfl | hf
+      · -- equal indices
+        obtain ⟨k, _, hk, hr⟩ := r_generic_least h hj hj ⟨h1, h2⟩
+        have h1p : IsLeastPeriod y.dset j j d 1 := by
+          refine ⟨Nat.le_refl _, ?_, fun t a b => by omega⟩
+          show y.dset.opU j (y.dset.opU j d) = d
+          exact h.invol j d hj h1 h2
+        rw [hview, hr, ← h1p.unique hk]
+        exact z.rPartial_diag (by rw [hzm]; exact hj) h1 (by rw [hzs]; exact h2)
+      · exact hT.rPartial_adj_eq_generic (by rw [hzm]; exact hj) h1 (by rw [hzs]; exact h2)
+      · rw [z.rPartial_symm]
+        have hi' : j < z.dim := by rw [hzm]; exact hi
+        have hj0 : j ≤ y.dset.dim := hj
+        obtain ⟨k, _, hk, hr⟩ := r_generic_least h (show j + 1 ≤ y.dset.dim from hi) hj0 ⟨h1, h2⟩
+        rw [hview, hr, hT.rPartial_adj hi' h1 (by rw [hzs]; exact h2)]
+        have hl := hT.rs_least hi' h1 (by rw [hzs]; exact h2)
+        rw [hzd] at hl
+        have := hl.inv h hj0 (show j + 1 ≤ y.dset.dim from hi) ⟨h1, h2⟩
+        rw [this.unique hk]
+      · exact absurd hf hfar
+  · have hoor : i > y.dim ∨ j > y.dim ∨ d < 1 ∨ d > y.size := by omega
+    have hoz : i > z.dim ∨ j > z.dim ∨ d < 1 ∨ d > z.size := by
+      unfold DSymData.dim DSymData.size; rw [hzd]; exact hoor
+    rw [z.rPartial_oor i j d hoz]
+    exact (View.r_oor y.dset.viewSimple i j d hoor).symm
+
+example : ValidTables (DSymData.ofSimple ex2) ∧ 1 ≤ (DSymData.ofSimple ex2).size ∧ 1 ≤ (DSymData.ofSimple ex2).dim :=
+  ⟨ex2_validSym.toValidTables, by decide, by decide⟩
 
 end DSymVerif.C02
